@@ -133,6 +133,52 @@ def run_multi(cases):
     return out
 
 
+def telemetry_campaign(ctx, singles, n):
+    """A telemetry-enabled filter (TELEMETRY_EXPORTER_ENABLED=true) has a THIRD thread beside the main and the heartbeat thread: the metrics updater
+    (Filter.start_metrics_updater_thread).  Here one of its ticks is IN FLIGHT across the end of the run (parked inside OpenTelemetryClient.update_metrics
+    until the terminal event is out - a slow collector / a tick that started just before the failure) and returns afterwards: the history of the run is
+    still START RUNNING* terminal and nothing after it.  Runs that end WITHOUT exit() (exception, stop event from outside): exit() joins the updater thread
+    before the terminal event, so a tick cannot straddle it there.  Free-running 1 ms heartbeat, compared modulo the number of RUNNING events."""
+    import json
+    from openfilter.observability import client as OC
+    from openfilter.filter_runtime import filter as F
+    res, rng = ctx.result, ctx.rng
+    if ctx.replay:
+        cases = [ctx.replay['case']['telemetry']] if (ctx.replay.get('case') or {}).get('telemetry') else []
+    else:
+        cands = [c for c in singles if 'exit' not in json.dumps(c['script']) and not c['script'].get('ctor_raises') and not c['script'].get('mq_raises') and not c.get('hb_facets')]
+        cases = [dict(rng.choice(cands), sched=None) for _ in range(n)] if cands else []
+    served = 0
+    for case in cases:
+        gate, inflight = threading.Event(), threading.Event()
+        real_um = OC.OpenTelemetryClient.update_metrics
+        def um(self, *a, _g=gate, _i=inflight, **k):
+            _i.set(); _g.wait(3)
+            return real_um(self, *a, **k)
+        em, cap, ops, _ = make_emitter(None)
+        old = F.TELEMETRY_EXPORTER_ENABLED
+        F.TELEMETRY_EXPORTER_ENABLED = 'true'; OC.OpenTelemetryClient.update_metrics = um
+        try:
+            o = L.run_impl(case, emitter=em)
+        finally:
+            F.TELEMETRY_EXPORTER_ENABLED = old
+        old_em = F.Filter.__dict__.get('emitter'); F.Filter.emitter = em      # the process-wide emitter outlives the run (class attribute)
+        gate.set()                       # the tick that was in flight returns now: the run has ended
+        time.sleep(0.03)
+        F.Filter.emitter = old_em
+        OC.OpenTelemetryClient.update_metrics = real_um
+        em._stop_event.set()
+        if em._thread: em._thread.join(1)
+        time.sleep(0.003)
+        ev = list(cap.ev)
+        obs = {'events': [t for t, _ in ev], 'rids': len({r for _, r in ev}), 'ops': ops, 'returns': o['outcome'] == 'returns', 'outcome': o['outcome'], 'log': o['log'], 'fired': o['fired']}
+        served += inflight.is_set()
+        res.note({'telemetry_tick_in_flight': inflight.is_set(), 'script': case['script'], 'prop': case['prop']}, inflight.is_set() and bool(obs['events']))
+        for key, what in oracle(case, obs)[:1]:
+            res.violations.append(Violation('telemetry-tick-across-end:' + key, f'metrics updater tick in flight across the end of the run (in flight: {inflight.is_set()}): {what}', {'telemetry': case}))
+    res.extra['telemetry_tick_runs'] = {'runs': len(cases), 'tick_in_flight': served}
+
+
 def ending(case, o):
     """class of the way the run ended: first fault that fired, else how the script ends"""
     s = case['script']
@@ -353,6 +399,8 @@ def run(ctx):
                         res.disagreements.append({'point': 'c18.history (re-used emitter)', 'case': {'multi': g[:j + 1]}, 'impl': {'events': o['events'], 'returns': o['returns']}, 'model': m})
                     else: res.traces_validated += 1
         res.extra['runs_on_shared_emitter'] = nmulti
+    if not ctx.replay or ctx.replay.get('case', {}).get('telemetry'):
+        telemetry_campaign(ctx, [c for c in cases if c.get('sched') is not None], 25 if not ctx.thorough else 250)
     # the lock discipline: tie of the statement-level model (OFModel/LineageLock.lean, refinement proved in C18Lock.lean) + the oracle
     probes = {}
     if ctx.replay and ctx.replay.get('case', {}).get('probe'): plist = [ctx.replay['case']['probe']]
